@@ -70,6 +70,16 @@ CHECKS = {
    text="Every cell of the rect radius table (given/omitted/zero/over-large/percent for rx and ry) x sizes incl. zero, circle, ellipse, line, polyline/polygon with 0..6 points incl. repeats, x 9-14 transforms of every class; the spec's equivalent path (as start point + ordered edges) is the oracle for segments(), Path(shape), Path(shape.d()), abs(shape), reify() and the untransformed decomposition: straight edges exact, curved edges on the mapped ellipse inside the positive quarter; laws: shape == Path(shape) == Path(shape.d()), equal bbox and lengths in both forms.",
    note="Trusted: TLC, Shapes.tla/PathOps.tla, the comparator. Exact == with Path(shape.d()) is only demanded when every number survives d()'s number format (12 digits, 6 for arc radii - the C07 finding).",
    design="5/C06"),
+ "C08": dict(
+   technique="TLA+ BBox: exact integer de Casteljau sampling with a second-derivative bracket for every 1-D Bezier control tuple, arc sides decided by rational sign tests with exact squared half extents, container union / stroke growth in rationals; enumerated by TLC and compared with bbox()",
+   text="Exhaustive over all quadratic and cubic 1-D control tuples on 0..V (V=4 quick, 6 thorough) on either axis: any correct side must lie in [sample min - eps, sample min] (contains every sample, touched within eps <= 1.1e-3); lattice arcs (rotations x radii x start angles x extents x both directions, beyond a full turn) with each side equal to an end point or to centre +- sqrt(exact square); shapes, sub-paths, groups and nested groups x stroke painted/none/unset x widths x scales x transformed x with_stroke against the spec's union/grow.",
+   note="Trusted: TLC, BBox.tla, sqrt in the comparator. Tightness finer than eps for Beziers with irrational extrema is not decided. Use elements are not yet in the container table.",
+   design="5/C08"),
+ "C19": dict(
+   technique="TLA+ ArcApprox: structural conversion contract on abstract paths (Connected, CountRight, EndsKept invariants) + concrete arc table enumerated by TLC; realised through as_cubic_curves/as_quad_curves/approximate_arcs_with_* and measured with the distance-to-ellipse comparator",
+   text="27 abstract paths (line / arc / zero-extent arc at 3 positions) x slice counts x 4 APIs: chain ends exactly at the arc's ends, joins exact, neighbours untouched, path connected, zero-extent arcs vanish; arc table (radii ratio 1..100, rotations, start angles, extents 0.02 rad .. exactly one turn .. 450 degrees, both directions) x position in a path x {default, 2x, 4x, n=1, error=0.02} x {cubic, quadratic}: joints on the ellipse, deviation <= 1e-3 / 1e-2 x larger radius at both defaults, non-increasing for finer subdivision.",
+   note="Trusted: TLC, ArcApprox.tla, the Newton distance-to-ellipse comparator; the deviation is sampled at 33 points per curve, not bounded analytically.",
+   design="5/C19"),
 }
 NOT_BUILT = "check not built yet (planned: DESIGN.md section 5)"
 
